@@ -895,3 +895,88 @@ func ruleH7(c *Ctx) {
 	R.Check(v == "valueFromIdx" && n == "countAtIdx", "H7", at, p.Position(rec.Pos()), "RecordValues(valueFromIdx, countAtIdx)",
 		fmt.Sprintf("Merge replays a bucket as RecordValues(%s, %s): a value other than the bucket's own representative can fall outside the trackable range (or into a neighbouring bucket), so merging into an empty histogram of the same shape drops or moves counts", v, n))
 }
+
+// ---------------------------------------------------------------- Q10
+
+// ruleQ10: a destructive producer hands out what it removed. In a producer
+// literal of package dt that pops an element (PopFront/PopBack/Pop), every
+// return reached after the pop either returns something read from the popped
+// element, or sits in a branch whose condition tests the popped element (the
+// "nothing was there" exit).
+func ruleQ10(c *Ctx, floor int) {
+	R := c.R
+	p := c.P
+	R.Rule("Q10", "a destructive producer never drops what it removed: after the pop, every return either yields a value read from the popped element or is in the branch that found the pop empty (a cancellation or error test placed after the pop loses the element)", floor)
+	pops := map[string]bool{"dt.(*List).PopFront": true, "dt.(*List).PopBack": true, "dt.(*Stack).Pop": true}
+	for _, f := range p.FuncsIn("dt") {
+		if f.Lit == nil {
+			continue
+		}
+		info := f.Info()
+		res := f.Lit.Type.Results
+		if res == nil || res.NumFields() != 2 {
+			continue
+		}
+		var pop *ast.CallExpr
+		var v types.Object
+		walkNoLit(f.Body, func(x ast.Node) bool {
+			as, ok := x.(*ast.AssignStmt)
+			if !ok || len(as.Lhs) != 1 || len(as.Rhs) != 1 {
+				return true
+			}
+			call, ok := ast.Unparen(as.Rhs[0]).(*ast.CallExpr)
+			if !ok || !pops[callName(info, call)] {
+				return true
+			}
+			if id, ok := as.Lhs[0].(*ast.Ident); ok && pop == nil {
+				pop = call
+				v = info.Uses[id]
+				if v == nil {
+					v = info.Defs[id]
+				}
+			}
+			return true
+		})
+		if pop == nil || v == nil {
+			continue
+		}
+		mentions := func(n ast.Node) bool {
+			hit := false
+			ast.Inspect(n, func(y ast.Node) bool {
+				if id, ok := y.(*ast.Ident); ok && info.Uses[id] == v {
+					hit = true
+				}
+				return !hit
+			})
+			return hit
+		}
+		fl := newFlow(f)
+		from, ok := fl.At(pop)
+		at := f.Name + "/after-pop"
+		pos := p.Position(pop.Pos())
+		if !ok {
+			R.Fail("Q10", at, pos, "the pop is not a node of the control-flow graph")
+			continue
+		}
+		bad := ""
+		for _, n := range fl.reachableFrom(from) {
+			rs, isRet := n.(*ast.ReturnStmt)
+			if !isRet || bad != "" {
+				continue
+			}
+			if len(rs.Results) >= 1 && mentions(rs.Results[0]) {
+				continue
+			}
+			inEmptyBranch := false
+			for y := p.Parent(rs); y != nil && y != ast.Node(f.Lit); y = p.Parent(y) {
+				if ifs, isIf := y.(*ast.IfStmt); isIf && p.inside(rs, ifs.Body) && mentions(ifs.Cond) {
+					inEmptyBranch = true
+				}
+			}
+			if !inEmptyBranch {
+				bad = p.Position(rs.Pos())
+			}
+		}
+		R.Check(bad == "", "Q10", at, pos, "every return after "+exprStr(pop)+" yields the popped element or is the empty exit", fmt.Sprintf("%s: the return at %s comes after %s but neither yields the popped element nor is the empty-container exit: the element has left the container and nobody receives it", f.Name, bad, exprStr(pop)))
+	}
+}
